@@ -79,7 +79,8 @@ PROPS = {
              "Clean in every mode x sort. Oracle: every slot addressed in this process keeps its entry/standalone file byte-identical, is never listed, and a read-only replay passes. "
              "non-trivial = -count > 1, or a test with >= 10 calls, or standalone and multi-entry mixed, or stale neighbours present; distinct = distinct canonical JSON",
         assumptions=ASSUME_WB + ["Clean is the exported function driven in-process with test.run/test.count set through the flag package; -run values always select every executed test"],
-        stages=[dict(name="clean_keeps", run="^TestC07_", quick=400, thorough=4000, shards_quick=4, shards_thorough=16)],
+        stages=[dict(name="clean_keeps", run="^TestC07_", quick=400, thorough=4000, shards_quick=4, shards_thorough=16),
+                dict(name="real_runner", engine="bb", run="^TestC07BB_", quick=30, thorough=400, shards_quick=4, shards_thorough=16)],
     ),
     "C08": dict(
         rule="case = real test program (2-5 top-level tests with prefix/substring-related names TestAlpha/TestAlphaBeta/TestAl, TestBeta/TestB, ..., generated subtests up to depth 2, calls under default, shared custom Filename, custom Ext "
@@ -168,7 +169,8 @@ PROPS = {
              "equal to the model's class, summary totals == harness tallies, obsolete lists == model's stale set == what Clean removed. concurrent: 2-8 goroutines (distinct names, one shared file) with predicted "
              "classes, then the same summary oracle. non-trivial = >= 2 failure/skip kinds or >= 2 processes (sequential), >= 3 outcome kinds (concurrent); distinct = distinct canonical JSON",
         assumptions=ASSUME_WB + ["MatchSnapshot without values (documented warning) is excluded", "the summary grammar parsed is the NO_COLOR one"],
-        stages=[dict(name="summary", run="^TestC20_", quick=500, thorough=5000, shards_quick=4, shards_thorough=16)],
+        stages=[dict(name="summary", run="^TestC20_", quick=500, thorough=5000, shards_quick=4, shards_thorough=16),
+                dict(name="real_process", engine="bb", run="^TestC20BB_", quick=30, thorough=400, shards_quick=4, shards_thorough=16)],
     ),
     "C11": dict(
         rule="case = one test function of a real test program (root package, sub, sub/deep/er) whose body is a generated tree of 1-4 steps per level: calls of the five entry points with Dir in {unset, relative, nested relative, ../up, "
